@@ -30,3 +30,24 @@ Proof.
          [1 # 2; 1 # 2].
   vm_compute. repeat split; reflexivity.
 Qed.
+
+(* The model-level monotonicity statement WITHOUT the hypothesis "the tunable heads of every AD already sum to the
+   available mass" is false: t(0.3)::b; t(0.3)::c.  with the interpretations {b} and {not b, not c}.
+   _normalize_weights gives all the mass to the tunable heads (b = 1, c = 0), the "no head" outcome that the second
+   interpretation needs gets probability 0: P(e2) drops from 0.4 to 0, the data log-likelihood from
+   ln 0.3 + ln 0.4 to -infinity.  (The real LFIProblem then prints "Ignoring example 2/2" and reports the
+   log-likelihood of the remaining example only, which is larger.) *)
+Theorem C24_ad_none_outcome_likelihood_collapse_refuted :
+  exists p exs th, wf_prog p = true /\ wf_params p (length th) = true /\ wf_theta p th = true /\
+    forallb ad_ok p = true /\
+    (forall me, In me exs -> 1 <= fst me /\ 0 < pevidence th p (snd me)) /\
+    exists me, In me exs /\ pevidence (step true p exs th) p (snd me) == 0.
+Proof.
+  exists [Clause [(0%nat, HTun 0); (1%nat, HTun 1)] []],
+         [(1, [(0%nat, true)]); (1, [(0%nat, false); (1%nat, false)])],
+         [3 # 10; 3 # 10].
+  repeat split; try reflexivity.
+  - destruct H as [H|[H|[]]]; subst; vm_compute; discriminate.
+  - destruct H as [H|[H|[]]]; subst; vm_compute; reflexivity.
+  - exists (1, [(0%nat, false); (1%nat, false)]). split; [right; left; reflexivity|]. vm_compute. reflexivity.
+Qed.
